@@ -13,7 +13,9 @@ EXPLANATION = ("C08 as a corollary of frame-parametric contracts, all proved for
                "absolute/relative): (T) tracking conformance -- the tracked native position follows the reference printer for every word "
                "in every frame; the unit/mode handlers change the frame and keep every native position; (D) the exclusion decision of "
                "processLinearMoves is a function of native points only (clause over natives_after/excluded); (X) the commands synthesised "
-               "on exit move the printer to the tracked native position in every frame and mode (C03.resync); (Tr) translating a region "
+               "on exit move the printer to the tracked native position in every frame and mode (C03.resync), given that the remembered entry "
+               "position is the printer's position when the episode began -- the coupling invariant processLinearMoves preserves "
+               "(Inv-preserved); (Tr) translating a region "
                "and a point by the same vector does not change containsPoint. G92 X/Y/Z re-basing is a known finding (F10).")
 BREAKERS = [
     {"module": "AxisPosition", "old": "        value *= self.unitMultiplier\n", "new": "        value = value * self.unitMultiplier if absoluteMode is None else value\n",
